@@ -35,7 +35,7 @@ class FunctionReport:
         for o in self.obligations:
             r = o.result.status if o.result else "unknown"
             if o.must_fail:
-                c["canary_ok" if r == "sat" else "canary_bad"] += 1
+                c["canary_ok" if r != "unsat" else "canary_bad"] += 1
             elif r == "unsat":
                 c["discharged"] += 1
             elif r == "sat":
@@ -140,7 +140,19 @@ def verify_function(c: Contract, timeout_s: float = 10.0, solve: bool = True) ->
             ns["new"] = OldView(ex, st2)
             for cl in c.ensures:
                 g, stx = ex.eval_clause(cl, ns, st2)
-                ex.oblige(stx, "post", cl.label, _b(g), tags=cl.tags or c.tags, note=cl.note)
+                if not cl.known:
+                    ex.oblige(stx, "post", cl.label, _b(g), tags=cl.tags or c.tags, note=cl.note)
+                    continue
+                from .dsl import Clause
+                conds = {}
+                for fid, pred in cl.known.items():
+                    pc_, stx = ex.eval_clause(Clause(f"{cl.label}#{fid}", pred), ns, stx)
+                    conds[fid] = _b(pc_)
+                ex.oblige(stx, "post", cl.label, z3.Implies(z3.Not(z3.Or(list(conds.values()))), _b(g)),
+                          tags=cl.tags or c.tags, note=cl.note)
+                for fid, cond in conds.items():
+                    ex.oblige(stx.assume(cond), "post", f"{cl.label}#{fid}", _b(g), tags=cl.tags or c.tags)
+                    ex.obligations[-1].finding = fid
             for cl in c.canaries:
                 g, stx = ex.eval_clause(cl, ns, st2)
                 ex.oblige(stx, "post", cl.label, _b(g), tags=cl.tags or c.tags, must_fail=True)
@@ -169,6 +181,7 @@ def verify_function(c: Contract, timeout_s: float = 10.0, solve: bool = True) ->
     rep.inlined = ex.inlined
     if solve:
         for o in rep.obligations:
-            o.result = smt.prove(o.pc, o.goal, timeout_s=timeout_s)
+            o.result = smt.prove(o.pc, o.goal, timeout_s=min(timeout_s, 5.0) if o.must_fail else timeout_s,
+                                 portfolio=not o.must_fail)
     rep.seconds = time.time() - t0
     return rep
